@@ -162,6 +162,11 @@ type c12ENI struct {
 	// namespace/name with another UID — the pod was recreated and the controller has not
 	// reclaimed the old record yet. The daemon must pick the record of the current UID.
 	Stale []bool `json:"stale,omitempty"`
+	// crd worlds: what is wrong with the vSwitch subnet recorded for this ENI in the Node CR
+	// ("": nothing): cidr4-empty | cidr6-empty (e.g. ENI recorded before its vSwitch got
+	// IPv6, or by an older controller) | cidr4-malformed | cidr6-malformed | cidr4-31 |
+	// cidr4-32 | cidr6-127 | cidr6-128 (too small for the reserved gateway)
+	BadCR string `json:"bad_cr,omitempty"`
 	ERdma bool     `json:"erdma,omitempty"`
 }
 
@@ -466,6 +471,16 @@ func c12GenENI(t *rapid.T, idx int, w *c12World, slots int, reg *c12VswReg) c12E
 	return e
 }
 
+var (
+	// Generated kinds. The too-small kinds (cidr4-31/-32, cidr6-127/-128) are understood by
+	// c12RecordedCIDRs (for replay files) but NOT generated: a vSwitch is at least a /29 and
+	// its IPv6 block a /64, the controller copies the subnet from the cloud, so a Node CR
+	// cannot carry one; on such a record the unchanged daemon answers with address and
+	// subnet but no gateway (DeriveGatewayIP has no third-from-last address to give).
+	c12BadCR4 = []string{"cidr4-empty", "cidr4-malformed"}
+	c12BadCR6 = []string{"cidr6-empty", "cidr6-malformed"}
+)
+
 var c12IfNames = []string{"eth1", "eth2", "net1", "net2", "eth0x"}
 
 func c12GenAllocs(t *rapid.T, w *c12World, trunk bool) []c12Alloc {
@@ -590,6 +605,22 @@ func c12GenWorld(t *rapid.T) c12World {
 			s := rapid.IntRange(0, len(w.ENIs[k].Busy)-1).Draw(t, "bind_slot")
 			w.Bind = [2]int{k, s}
 			w.ENIs[k].Busy[s] = false
+			// incomplete ENI record in the Node CR (usually the one the pod is bound to)
+			if rapid.IntRange(0, 5).Draw(t, "bad_cr") == 5 {
+				j := k
+				if rapid.IntRange(0, 3).Draw(t, "bad_cr_other") == 3 {
+					j = rapid.IntRange(0, nENI-1).Draw(t, "bad_cr_eni")
+				}
+				var kinds []string
+				if w.v4() {
+					kinds = append(kinds, c12BadCR4...)
+				}
+				if w.v6() {
+					kinds = append(kinds, c12BadCR6...)
+					kinds = append(kinds, c12BadCR6...)
+				}
+				w.ENIs[j].BadCR = rapid.SampledFrom(kinds).Draw(t, "bad_cr_kind")
+			}
 			if rapid.IntRange(0, 2).Draw(t, "with_stale") > 0 {
 				for i := range w.ENIs {
 					w.ENIs[i].Stale = make([]bool, len(w.ENIs[i].Busy))
@@ -799,6 +830,33 @@ func c12PodENIObject(w *c12World) *networkv1beta1.PodENI {
 	return pe
 }
 
+// c12RecordedCIDRs is what the Node CR says about the ENI's vSwitch subnets.
+func c12RecordedCIDRs(e *c12ENI) (string, string) {
+	c4, c6 := e.CIDR4, e.CIDR6
+	tiny := func(addr string, bits int) string {
+		return netip.PrefixFrom(netip.MustParseAddr(addr), bits).Masked().String()
+	}
+	switch e.BadCR {
+	case "cidr4-empty":
+		c4 = ""
+	case "cidr4-malformed":
+		c4 = strings.SplitN(c4, "/", 2)[0] // mask lost
+	case "cidr4-31":
+		c4 = tiny(e.V4[0], 31)
+	case "cidr4-32":
+		c4 = tiny(e.V4[0], 32)
+	case "cidr6-empty":
+		c6 = ""
+	case "cidr6-malformed":
+		c6 = strings.SplitN(c6, "/", 2)[0] + "/200"
+	case "cidr6-127":
+		c6 = tiny(e.V6[0], 127)
+	case "cidr6-128":
+		c6 = tiny(e.V6[0], 128)
+	}
+	return c4, c6
+}
+
 func c12NodeCR(w *c12World) *networkv1beta1.Node {
 	n := &networkv1beta1.Node{ObjectMeta: metav1.ObjectMeta{Name: "node-1"}}
 	n.Spec.ENISpec = &networkv1beta1.ENISpec{
@@ -809,9 +867,10 @@ func c12NodeCR(w *c12World) *networkv1beta1.Node {
 	podID := w.Pod.NS + "/" + w.Pod.Name
 	for i := range w.ENIs {
 		e := &w.ENIs[i]
+		rec4, rec6 := c12RecordedCIDRs(e)
 		ni := &networkv1beta1.NetworkInterface{
 			ID: e.ID, Status: "InUse", MacAddress: c12MAC(e.MAC), VSwitchID: "vsw-" + e.ID,
-			PrimaryIPAddress: e.Prim4, IPv4CIDR: e.CIDR4, IPv6CIDR: e.CIDR6,
+			PrimaryIPAddress: e.Prim4, IPv4CIDR: rec4, IPv6CIDR: rec6,
 			NetworkInterfaceType:        networkv1beta1.ENITypeSecondary,
 			NetworkInterfaceTrafficMode: networkv1beta1.NetworkInterfaceTrafficModeStandard,
 			IPv4:                        map[string]*networkv1beta1.IP{}, IPv6: map[string]*networkv1beta1.IP{},
@@ -1122,7 +1181,8 @@ func c12CheckReply(c *vt.Ctx, w *c12World, rpcName string, reply c12AnyReply) {
 			c.Fatalf("one bound address pair, reply has %d configurations", len(ncs))
 		}
 		e := &w.ENIs[w.Bind[0]]
-		wn := &c12Want{cidr4: e.CIDR4, cidr6: e.CIDR6, derived: true}
+		rec4, rec6 := c12RecordedCIDRs(e)
+		wn := &c12Want{cidr4: rec4, cidr6: rec6, derived: true}
 		if w.v4() {
 			wn.v4 = e.V4[w.Bind[1]]
 		}
@@ -1463,6 +1523,18 @@ func c12RunWorld(c *vt.Ctx, w c12World) {
 	}
 	if incomplete {
 		c.Label("podeni-incomplete-record")
+	}
+	if w.Kind == c12KCRD {
+		rec4, rec6 := c12RecordedCIDRs(&w.ENIs[w.Bind[0]])
+		if (w.v4() && !c12Usable(rec4)) || (w.v6() && !c12Usable(rec6)) {
+			incomplete = true
+			c.Label("crd-incomplete-eni-record:" + w.ENIs[w.Bind[0]].BadCR)
+		}
+		for i := range w.ENIs {
+			if i != w.Bind[0] && w.ENIs[i].BadCR != "" {
+				c.Label("crd-incomplete-record-on-other-eni")
+			}
+		}
 	}
 	if w.podENI() {
 		c.Labelf("podeni-defaults:%d", min(nDefault, 2))
